@@ -1,5 +1,5 @@
 """Shared helpers for the managed-pool rules."""
-from .facts import strip_generics, Place, Operand
+from .facts import strip_generics, Place, Operand, norm_path
 from .roles import ManagedRoles, PERMIT_ADT, classify_write, adt_of
 from .engine import Undecided
 from .analysis import sources
@@ -437,6 +437,18 @@ def builder_plumbing(ctx, rule, setters):
         lf = [s.place.last_field() for s in writes]
         ok_place = len(writes) == 1 and lf[0] == (own, fld)
         src = sources(an, writes[0].rv.ops[0], deep=True) if len(writes) == 1 and writes[0].rv.ops else set()
+        if not writes:
+            # functional-update form: `Self { config: PoolConfig { max_size: value, ..self.config }, ..self }`
+            aggs = [s for blk in b.blocks if not blk.cleanup for s in blk.stmts if s.kind == 'assign' and s.rv.kind == 'agg' and s.rv.j.get('ak') == 'adt' and
+                    norm_path(strip_generics(s.rv.j['adt'])) == own and fld in s.rv.j.get('fields', [])]
+            if len(aggs) == 1:
+                f_ = dict(zip(aggs[0].rv.j['fields'], aggs[0].rv.ops))
+                src = sources(an, f_[fld], deep=True)
+                others_from_self = all(any(x[0] == 'arg' and x[1] == 'self' for x in sources(an, o_, deep=True)) for n_, o_ in f_.items() if n_ != fld)
+                ok_place = others_from_self
+                lf = [(own, fld)]
+            else:
+                ctx.undecide(rule, 'PoolBuilder::%s: neither a field write nor one %s aggregate found (unknown form)' % (sname, own.split('::')[-1])); continue
         argn = {x[1] for x in src if x[0] == 'arg'}
         ok_val = len(argn) == 1 and 'self' not in argn and not any(x[0] == 'const' and x[1] not in ('()',) for x in src if not str(x[1]).startswith('fn')) and \
             not any(x[0] == 'bin' for x in src)
